@@ -90,6 +90,10 @@ impl Xot {
     /// ```
     pub fn append(&mut self, parent: Node, child: Node) -> Result<(), Error> {
         self.add_structure_check(Some(parent), child)?;
+        // already in place
+        if self.last_child(parent) == Some(child) {
+            return Ok(());
+        }
         self.remove_consolidate_text_nodes(self.previous_sibling(child), self.next_sibling(child));
         if self.add_consolidate_text_nodes(child, self.last_child(parent), None) {
             return Ok(());
@@ -331,6 +335,10 @@ impl Xot {
     /// It is now the new first node of the parent.
     pub fn prepend(&mut self, parent: Node, child: Node) -> Result<(), Error> {
         self.add_structure_check(Some(parent), child)?;
+        // already in place
+        if self.first_child(parent) == Some(child) {
+            return Ok(());
+        }
         self.remove_consolidate_text_nodes(self.previous_sibling(child), self.next_sibling(child));
         if self.add_consolidate_text_nodes(child, None, self.first_child(parent)) {
             return Ok(());
@@ -374,6 +382,10 @@ impl Xot {
     /// ```
     pub fn insert_after(&mut self, reference_node: Node, new_sibling: Node) -> Result<(), Error> {
         self.sibling_structure_check(reference_node, new_sibling)?;
+        // already in place
+        if self.next_sibling(reference_node) == Some(new_sibling) {
+            return Ok(());
+        }
         self.remove_consolidate_text_nodes(
             self.previous_sibling(new_sibling),
             self.next_sibling(new_sibling),
@@ -394,6 +406,10 @@ impl Xot {
     /// Insert a new sibling before a reference node.
     pub fn insert_before(&mut self, reference_node: Node, new_sibling: Node) -> Result<(), Error> {
         self.sibling_structure_check(reference_node, new_sibling)?;
+        // already in place
+        if self.previous_sibling(reference_node) == Some(new_sibling) {
+            return Ok(());
+        }
         self.remove_consolidate_text_nodes(
             self.previous_sibling(new_sibling),
             self.next_sibling(new_sibling),
